@@ -36,6 +36,11 @@ CASES = [
     ('tuple-unpack-swap', 'p, q = x[0], x[-1]\np, q = q, p\nr = [p, q]', dict(x='list1')),
     ('dict-update-get', "d = {'u': a}\nd.update({'w': b})\nd['u'] = d.get('u', 0) + d.get('missing', 1)\nr = [d['u'], d['w'], len(d)]", dict(a='real', b='real')),
     ('row-assignment-copies', 'm = numpy.asarray([list(x), list(y)])\nm[0] = m[1]\nm[1][0] = a\nr = [m[0][0], m[1][0]]', dict(x='list1', y='list_same', a='real')),
+    ('int-array-store-truncates', 'z = numpy.asarray([i, j])\nz[0] = a\nz[1] = b\nr = z.tolist()', dict(i='int', j='posint', a='real', b='real')),
+    ('float64-array-of-ints-keeps-reals', "z = numpy.asarray([i, j], dtype='float64')\nz[0] = a\nr = z.tolist() + [z[1] / 2]", dict(i='int', j='posint', a='real')),
+    ('zeros-with-inherited-dtype', 'g = numpy.asarray([i, j])\nm = numpy.zeros((2, 2), dtype=g.dtype)\nm[0] = g\nm[1] = [a, b]\nm[0][1] = a\nr = m[0].tolist() + m[1].tolist()',
+     dict(i='int', j='posint', a='real', b='real')),
+    ('zeros-default-float', 'm = numpy.zeros(2)\nm[0] = i\nm[1] = a\nr = [m[0] / 2, m[1]]', dict(i='int', a='real')),
     ('abs-tolerance', 'r = tol + abs(a) * rel', dict(a='real', tol='real', rel='real')),
 ]
 
